@@ -167,8 +167,8 @@ def judge(before_src, after_src, op, put_code_src):
     ext = target_extent(before_src, op)
     if ext is None:
         return None
-    if op['kind'] == 'attr_del' and op.get('field') == 'type':
-        return None   # deleting an except handler's type also deletes its `as name` (documented)
+    if op['kind'] == 'attr_del' and op.get('field') in ('type', 'exc'):
+        return None   # deleting an except handler's type also deletes its `as name`; deleting Raise.exc also deletes `from cause` (required)
     (s, e) = ext
     # indices of target tokens in B
     idx = [i for i, t in enumerate(B) if t[2] >= s and t[3] <= e]
@@ -200,6 +200,96 @@ def judge(before_src, after_src, op, put_code_src):
             'first_changed_before_window': pre[p:p + 6] if p < len(pre) else None,
             'last_changed_after_window': post[max(0, len(post) - q - 6):len(post) - q] if q < len(post) else None,
             'after_tokens_there': Ak[p:p + 6]}
+
+
+def trivia_kinds(opt):
+    """(leading kind, trailing kind) in {'none','block','all','line'} from a trivia option value (blank-line counts ignored)"""
+    import re as _re
+
+    def one(v, lead):
+        if v is True:
+            return 'block' if lead else 'line'
+        if v is False:
+            return 'none'
+        if isinstance(v, int):
+            return 'all'
+        k = _re.sub(r'[+-]\d*$', '', v)
+        return k or ('block' if lead else 'line')
+    if isinstance(opt, tuple):
+        if len(opt) == 0:
+            return 'none', 'none'
+        if len(opt) == 1:
+            return 'block', one(opt[0], False)
+        return one(opt[0], True), one(opt[1], False)
+    return one(opt, True), 'line'
+
+
+def strict_comment_check(before_src, after_src, op, put_code_src):
+    """comments that the trivia option does NOT select must survive, in order (deletion-type ops on a single element)"""
+    ext = target_extent(before_src, op)
+    if ext is None:
+        return None
+    B, A = toks(before_src), toks(after_src)
+    if B is None or A is None:
+        return None
+    (l0, c0), (l1, c1) = ext
+    lines = before_src.split('\n')
+    import re as _re
+    is_comm = lambda i: 1 <= i <= len(lines) and _re.match(r'[ \t]*#', lines[i - 1]) is not None
+    is_blank = lambda i: 1 <= i <= len(lines) and _re.fullmatch(r'[ \t]*\\?', lines[i - 1]) is not None
+    lead, trail = trivia_kinds((op.get('options') or {}).get('trivia', True))
+    allowed = set(range(l0, l1 + 1))
+    # comments inside the element's own grouping parentheses belong to the (parenthesised) element
+    idx = [i for i, t in enumerate(B) if t[2] >= (l0, c0) and t[3] <= (l1, c1)]
+    if idx:
+        lo, hi = idx[0], idx[-1]
+        while True:
+            j = lo - 1
+            cs = []
+            while j >= 0 and B[j][0] == tokenize.COMMENT:
+                cs.append(j)
+                j -= 1
+            k = hi + 1
+            ce = []
+            while k < len(B) and B[k][0] == tokenize.COMMENT:
+                ce.append(k)
+                k += 1
+            if j >= 0 and k < len(B) and B[j][1] == '(' and B[k][1] == ')':
+                for q_ in cs + ce:
+                    allowed.add(B[q_][2][0])
+                lo, hi = j, k
+            else:
+                break
+    starts_line = lines[l0 - 1][:c0].strip() == ''
+    if starts_line:
+        i = l0 - 1
+        if lead == 'block':
+            while is_comm(i):
+                allowed.add(i)
+                i -= 1
+        elif lead == 'all':
+            while is_comm(i) or is_blank(i):
+                allowed.add(i)
+                i -= 1
+    if trail in ('block', 'all'):
+        i = l1 + 1
+        while is_comm(i) or (trail == 'all' and is_blank(i)):
+            allowed.add(i)
+            i += 1
+    if trail == 'none':
+        # the comment on the element's own last line is not selected: keep only comments strictly inside the element lines
+        pass
+    required = [t[1] for t in B if t[0] == tokenize.COMMENT and not (t[2][0] in allowed and (trail != 'none' or t[2][0] != l1 or t[2] < (l1, c1)))]
+    have = [t[1] for t in A if t[0] == tokenize.COMMENT]
+    j = 0
+    for c in required:
+        while j < len(have) and have[j] != c:
+            j += 1
+        if j == len(have):
+            return {'why': 'a comment not selected by the trivia option was lost or moved', 'comment': c, 'trivia_kinds': [lead, trail],
+                    'element_lines': [l0, l1]}
+        j += 1
+    return None
 
 
 def comment_check(before_src, after_src, put_code_src):
@@ -246,13 +336,26 @@ def stage_oracle(ctx: Ctx, progs):
             after = root.src
             code = op.get('code') if isinstance(op.get('code'), str) else None
             ctx.tick((hash(before) & 0xffffff, json.dumps(edits.op_brief(op), default=repr, sort_keys=True)), 'op:' + op['kind'])
-            v = judge(before, after, op, code)
-            if v is None:
-                v = comment_check(before, after, code)
-            else:
-                judged += 1
+            try:
+                ast.parse(after)
+                parses = True
+            except SyntaxError as ex:
+                parses = False
+                v = {'why': 'the edited source no longer parses (text damaged)', 'error': str(ex)}
+            if parses:
+                v = judge(before, after, op, code)
+                if v is None:
+                    v = comment_check(before, after, code)
+                else:
+                    judged += 1
+                if v is None and op['kind'] in ('remove', 'cut', 'view_del', 'replace_stmt', 'replace_expr', 'put_one', 'view_set'):
+                    v = strict_comment_check(before, after, op, code)
             if v:
-                ctx.violation(f'text|{op["kind"]}|{v["why"][:40]}', 'an edit changed tokens or comments outside the edited element',
+                sig = f'text|{op["kind"]}|{v["why"][:40]}'
+                if v['why'].startswith('a comment not selected') and before.count('elif') < after.count('elif'):
+                    # the lost comment stood between a block body and its `else:` line, and the edit merged `else:` + `if` into `elif`
+                    sig = 'comment-lost|else-if-merged-into-elif'
+                ctx.violation(sig, 'an edit changed tokens or comments outside the edited element',
                               {'start_src': src, 'history': hist, 'before': before, 'after': after, 'last_op': edits.op_brief(op), **v})
                 break
     ctx.extra['edits_judged_by_window'] = judged
@@ -288,10 +391,13 @@ def stage_line_comment(ctx: Ctx, progs):
             ctx.violation('line-comment|code', 'put_line_comment changed code tokens', {'src': before, 'after': after, 'comment': cm, 'stmt_line': n.lineno})
             continue
         # at most one comment differs (added / removed / replaced), all others identical and in order
-        import difflib
-        sm = difflib.SequenceMatcher(a=commb, b=comma, autojunk=False)
-        changed = [op for op in sm.get_opcodes() if op[0] != 'equal']
-        if len(changed) > 1 or any((op[2] - op[1]) > 1 or (op[4] - op[3]) > 1 for op in changed):
+        i = 0
+        while i < len(commb) and i < len(comma) and commb[i] == comma[i]:
+            i += 1
+        j = 0
+        while j < len(commb) - i and j < len(comma) - i and commb[-1 - j] == comma[-1 - j]:
+            j += 1
+        if len(commb) - i - j > 1 or len(comma) - i - j > 1:
             ctx.violation('line-comment|comments', 'put_line_comment changed more than the addressed comment', {'src': before, 'after': after, 'comment': cm, 'stmt_line': n.lineno})
 
 
